@@ -1261,10 +1261,17 @@ def run(tier, seed):
                 "check_on_set=True / allow_None declared), after every edit the list view and one assignment per route "
                 "(instance, constructor keyword, class, update, deserialize-then-update, untouched older instance) of every "
                 "object seen + a never-member" % c18_mixed.DEPTHS[tier][:2])
+    from bounded import c18_unck
+    c18_unck.run_family(B, tier, seed, NWORKERS)
+    B.bound += ("; FAMILY UD (bounded/c18_unck.py): DICT-declared {Selector,ListSelector} with check_on_set=False x "
+                "{class,instance}-level x {0,1,2 'objects' watchers, value+objects watcher}, histories of dict-style "
+                "mutations interleaved with value assignments of unknown / known objects on every route (instance "
+                "attribute, param.update, batch, deserialize; class attribute, constructor keyword, new instance, "
+                "class-level update): list view, labels, get_range(), accepted values, pop result, watcher calls")
     B.note("style-inconsistent operations (append/insert/extend/[i]= on dict-declared objects, key operations on "
            "list-declared objects: names / items() / get_range() after them; only the list view and the accepted values are "
-           "claimed there, family MX), duplicate objects, check_on_set=False on dict-declared objects (the name of an "
-           "auto-added object is not settled), objects.update(**kw) without a positional argument (not in ListProxy's "
+           "claimed there, family MX), duplicate objects, the NAME an auto-added object of a check_on_set=False "
+           "dict-declared Selector shows under (not settled; everything else about them: family UD), objects.update(**kw) without a positional argument (not in ListProxy's "
            "signature) and failing operations (pop from empty, missing key) are outside the statement's quantifier "
            "and are not enumerated")
     return B.result()
